@@ -321,3 +321,241 @@ def check_c06(tier, replay):
 @register("C07")
 def check_c07(tier, replay):
     return eventlog_check("C07", tier, replay)
+
+
+# ---------------------------------------------------------------------------
+# Account.tla  <->  LocalAccount (fs + sqlite in lock-step): C01 C02 C12 (C16 C20)
+
+def strip_properties(cfg_path):
+    txt = open(cfg_path).read()
+    i = txt.find("PROPERTIES")
+    if i >= 0:
+        j = txt.find("CHECK_DEADLOCK", i)
+        txt = txt[:i] + (txt[j:] if j >= 0 else "")
+    open(cfg_path, "w").write(txt)
+
+
+def model_and_graph(module, cfg_template, consts, wd, name, actions, timeout_s=1800):
+    """(1) check the spec's invariants, (2) emit every edge.  Returns (graph, stats)."""
+    cfg = vlib.render_cfg(cfg_template, dict(consts, EmitEdges="FALSE"), os.path.join(wd, "prop.cfg"))
+    r = vlib.run_tlc(module, cfg, name + "p", timeout_s=timeout_s)
+    if r.violated:
+        raise ToolError("intended %s spec violates %s" % (module, r.violated))
+    for a in actions:
+        if a not in r.coverage or r.coverage[a][1] == 0:
+            raise ToolError("vacuous: action %s never fired" % a)
+    g = vlib.Graph()
+    cfg = vlib.render_cfg(cfg_template, dict(consts, EmitEdges="TRUE"), os.path.join(wd, "emit.cfg"))
+    strip_properties(cfg)
+    vlib.run_tlc(module, cfg, name + "e", coverage=False, timeout_s=timeout_s,
+                 tag_sink=lambda tag, obj: g.add(obj) if tag == "EDGE" else None)
+    if not g.edges:
+        raise ToolError("TLC emitted no edges")
+    stats = {"states": r.distinct, "transitions": r.generated,
+             "action_coverage": {k: list(v) for k, v in r.coverage.items() if k in actions}}
+    return g, stats
+
+
+def write_paths(g, paths, wd, chunks, extra=None):
+    files = [open(os.path.join(wd, "paths_%02d.ndjson" % i), "w") for i in range(chunks)]
+    # longest paths first, so that the parallel chunks are balanced
+    order = sorted(range(len(paths)), key=lambda i: -len(paths[i]))
+    load = [0] * chunks
+    for i in order:
+        p = paths[i]
+        steps = [dict(g.edges[ei][2], **{"from": g.nodes[g.edges[ei][0]]}) for ei in p]
+        obj = {"steps": steps}
+        if extra:
+            obj.update(extra)
+        c = load.index(min(load))
+        load[c] += len(p) + 5
+        files[c].write(json.dumps(obj) + "\n")
+    for f in files:
+        f.close()
+    return [os.path.join(wd, "paths_%02d.ndjson" % i) for i in range(chunks)
+            if os.path.getsize(os.path.join(wd, "paths_%02d.ndjson" % i)) > 0]
+
+
+ACCOUNT_ACTIONS = {
+    "CreateSecret": "ACreateSecret", "UpdateSecret": "AUpdateSecret", "DeleteSecret": "ADeleteSecret",
+    "MoveSecret": "AMoveSecret", "Archive": "AArchive", "CreateFolder": "ACreateFolder",
+    "DeleteFolder": "ADeleteFolder", "RenameFolder": "ARenameFolder", "SetDescription": "ASetDescription",
+    "SetFlags": "ASetFlags", "SignOutIn": "ASignOutIn", "LockUnlock": "ALockUnlock",
+    "Compact": "ACompact", "ChangeFolderPassword": "AChangeFolderPassword",
+    "ChangeAccountPassword": "AChangeAccountPassword",
+}
+
+ACCOUNT_INIT = None
+
+
+def account_init(consts_py):
+    allf = ["d", "a"] + consts_py["UserFolders"]
+    return {"folders": [], "name": {f: "name_" + f for f in allf}, "desc": {f: "e0" for f in allf},
+            "flag": {f: "plain" for f in allf},
+            "sec": {f: {s: "none" for s in consts_py["Slots"]} for f in allf},
+            "epoch": {f: 0 for f in allf}, "aepoch": 0}
+
+
+def tla_set(xs):
+    return "{" + ", ".join('"%s"' % x for x in xs) + "}"
+
+
+def account_check(prop, tier, replay, instances, rule, assumptions, level="model_checking"):
+    import random
+    t0 = time.time()
+    wd = vlib.workdir("%s_%s" % (prop, tier))
+    rng = random.Random(vlib.seed())
+    known = vlib.known_keys(prop)
+    scratch = vlib.scratch_base(prop)
+    if replay:
+        vlib.cargo_build()
+        v = json.load(open(replay))
+        d = v.get("detail", v)
+        pfile = os.path.join(wd, "replay.ndjson")
+        with open(pfile, "w") as f:
+            f.write(json.dumps(d["path"]) + "\n")
+        summ = vlib.run_harness([vlib.harness_bin("replay"), "account", pfile, "fs,db", scratch, prop])
+        for x in summ["violations"]:
+            log("REPLAY-DIVERGENCE " + x["summary"][:1500])
+        return 1 if summ["violations"] else 0
+    vlib.cargo_build()
+    tot = {"states": 0, "transitions": 0, "edges": 0, "covered": 0, "paths": 0, "steps": 0}
+    cov = {}
+    summaries = []
+    inst_desc = []
+    for n, inst in enumerate(instances):
+        py = inst["consts"]
+        consts = {"UserFolders": tla_set(py["UserFolders"]), "Slots": tla_set(py["Slots"]),
+                  "Values": tla_set(py["Values"]), "Names": tla_set(py["Names"]),
+                  "Descs": tla_set(py["Descs"]), "MetaFolders": tla_set(py["MetaFolders"]),
+                  "MaxEpoch": str(py["MaxEpoch"]), "Enabled": tla_set(py["Enabled"])}
+        iwd = os.path.join(wd, "i%d" % n)
+        os.makedirs(iwd, exist_ok=True)
+        actions = sorted({ACCOUNT_ACTIONS[a] for a in py["Enabled"]})
+        g, stats = model_and_graph("MC_Account", "MC_Account.cfg", consts, iwd, "%s_%d" % (prop, n), actions)
+        init = account_init(py)
+        flt = None
+        if inst.get("representatives", True):
+            reps = {}
+            for i, (s_, d_, st) in enumerate(g.edges):
+                k = (s_, d_, st["act"], json.dumps(st["args"][:inst.get("rep_args", 1)]))
+                reps.setdefault(k, i)
+            keep = set(reps.values())
+            idx_of = {id(st): i for i, (_, _, st) in enumerate(g.edges)}
+            flt = lambda e: idx_of[id(e)] in keep
+        paths, covered, wanted = vlib.transition_tour(g, init, max_len=inst.get("max_len", 80), rng=rng,
+                                                      edge_filter=flt)
+        if covered < wanted:
+            raise ToolError("transition tour covered %d of %d edges" % (covered, wanted))
+        sample_n = inst.get("sample_paths")
+        if sample_n and len(paths) > sample_n:
+            paths = rng.sample(paths, sample_n)
+        files = write_paths(g, paths, iwd, 12)
+        summ = vlib.run_harness_parallel(
+            lambda p: [vlib.harness_bin("replay"), "account", p, inst.get("backends", "fs,db"),
+                       os.path.join(scratch, "i%d_%s" % (n, os.path.basename(p)[:8])), prop],
+            files, jobs=12, timeout_s=inst.get("timeout", 3000))
+        summaries.append(summ)
+        tot["states"] += stats["states"]
+        tot["transitions"] += stats["transitions"]
+        tot["edges"] += len(g.edges)
+        tot["covered"] += covered
+        tot["paths"] += len(paths)
+        tot["steps"] += sum(len(p) for p in paths)
+        cov.update(stats["action_coverage"])
+        inst_desc.append({"constants": py, "graph_edges": len(g.edges), "edges_in_tour": covered,
+                          "paths": len(paths)})
+    summ = vlib.merge_summaries(summaries)
+    cover = {
+        "states": tot["states"], "transitions": tot["transitions"],
+        "traces_validated_against_impl": summ["evaluated"],
+        "evaluations": summ["evaluated"], "impl_steps_compared": summ["steps"],
+        "distinct_nontrivial": len(set(summ["nontrivial_keys"])),
+        "rule": rule, "exhaustive": all(not i.get("sample_paths") for i in instances),
+        "graph_edges": tot["edges"], "edges_covered": tot["covered"], "tour_paths": tot["paths"],
+        "tour_steps": tot["steps"], "instances": inst_desc, "backends": ["fs", "db"],
+        "action_coverage": cov, "samples": summ["samples"][:3],
+        "model_mismatches": len(summ["mismatches"]),
+    }
+    vlib.write_evidence(prop, tier, level, cover, assumptions, time.time() - t0, len(summ["violations"]))
+    known_hits = [dict(known[k["key"]], **k) for k in summ["known"] if k["key"] in known]
+    return vlib.finish(prop, summ["violations"], known_hits)
+
+
+C01_ENABLED = ["CreateSecret", "UpdateSecret", "DeleteSecret", "MoveSecret", "Archive", "CreateFolder",
+               "DeleteFolder", "RenameFolder", "SetDescription", "SetFlags", "SignOutIn", "LockUnlock"]
+ACCOUNT_ASSUME = ["harness/src/account_world.rs projection (public API only) and values.rs token table",
+                  "date_created/last_updated are not compared"]
+
+
+def base_consts(**kw):
+    c = {"UserFolders": ["f1"], "Slots": ["s1", "s2"], "Values": ["v1", "v2"], "Names": ["n1"],
+         "Descs": ["e1"], "MetaFolders": ["f1", "d"], "MaxEpoch": 1, "Enabled": C01_ENABLED}
+    c.update(kw)
+    return c
+
+
+@register("C01")
+def check_c01(tier, replay):
+    rule = ("TLC enumerates the complete graph of Account.tla for the instance (secret and folder operations, "
+            "archive/unarchive, move, SignOut;SignIn and Lock;Unlock placed at every state); a transition tour "
+            "(one representative per source/target/action/first argument in quick, every edge in thorough) is "
+            "replayed on LocalAccount over the file-system and sqlite backends in lock-step; after every step "
+            "read_secret of every slot (current and stale ids), list_secret_ids, list_folders, "
+            "folder_description are compared with the spec state and between backends. Non-trivial = "
+            "behaviour with a state-changing step; distinct by action/argument sequence.")
+    if tier == "quick":
+        inst = [{"consts": base_consts(MetaFolders=["f1"]), "max_len": 60}]
+    else:
+        inst = [{"consts": base_consts(), "representatives": False, "max_len": 80},
+                {"consts": base_consts(Values=["v3", "v4", "v5"], MetaFolders=["f1"]), "max_len": 80},
+                {"consts": base_consts(Values=["v6", "v7"], Slots=["s1", "s2", "s3"], MetaFolders=["f1"],
+                                       Enabled=[a for a in C01_ENABLED if a not in ("SetFlags", "SetDescription", "LockUnlock")]),
+                 "max_len": 80}]
+    return account_check("C01", tier, replay, inst, rule, ACCOUNT_ASSUME)
+
+
+C02_ENABLED = ["CreateSecret", "UpdateSecret", "DeleteSecret", "MoveSecret", "Archive", "CreateFolder",
+               "DeleteFolder", "RenameFolder", "SetDescription", "SetFlags", "SignOutIn", "Compact"]
+
+
+@register("C02")
+def check_c02(tier, replay):
+    rule = ("Behaviours of Account.tla (local secret/folder operations, moves, compaction, reload) from the "
+            "transition tour of the complete graph are replayed on LocalAccount (fs + sqlite); after every step, "
+            "for every folder, three values are decrypted and compared: FolderReducer::reduce(event log).build(), "
+            "the vault the account serves, and the vault persisted in the vault file / sqlite rows (fresh "
+            "Folder::new): name, flags, description, id set and per-id meta+value. Merges received from other "
+            "devices are covered by the Sync world behaviours (C04/C05), which evaluate the same predicate. "
+            "Non-trivial = behaviour with a state-changing step.")
+    if tier == "quick":
+        inst = [{"consts": base_consts(MetaFolders=["f1"], Enabled=C02_ENABLED), "max_len": 60}]
+    else:
+        inst = [{"consts": base_consts(Enabled=C02_ENABLED), "representatives": False, "max_len": 80},
+                {"consts": base_consts(Values=["v3", "v4", "v5"], MetaFolders=["f1"], Enabled=C02_ENABLED),
+                 "max_len": 80}]
+    return account_check("C02", tier, replay, inst, rule, ACCOUNT_ASSUME)
+
+
+C12_ENABLED = ["CreateSecret", "UpdateSecret", "DeleteSecret", "CreateFolder", "RenameFolder", "SetDescription",
+               "SetFlags", "SignOutIn", "Compact", "ChangeFolderPassword", "ChangeAccountPassword"]
+
+
+@register("C12")
+def check_c12(tier, replay):
+    rule = ("Behaviours of Account.tla with Compact / ChangeFolderPassword / ChangeAccountPassword placed at "
+            "every state of histories with renames, description and flag changes and deletes (key epochs "
+            "bounded by MaxEpoch) are replayed on LocalAccount (fs + sqlite); after each such step the served "
+            "state must be unchanged (spec state), the folder log must have exactly 1 + |live secrets| events "
+            "starting with the creation event, reduce(log) = served = persisted, the previous folder password "
+            "must not unlock the persisted folder nor the vault rebuilt from the log, the new one must, and "
+            "the old account password must not sign in. Non-trivial = behaviour with a state-changing step.")
+    if tier == "quick":
+        inst = [{"consts": base_consts(MetaFolders=["f1"], Slots=["s1"], Values=["v1", "v2"],
+                                       Enabled=C12_ENABLED), "max_len": 60}]
+    else:
+        inst = [{"consts": base_consts(Enabled=C12_ENABLED, MaxEpoch=2, MetaFolders=["f1"]),
+                 "representatives": False, "max_len": 80},
+                {"consts": base_consts(Values=["v3", "v5"], MetaFolders=["f1", "d"], Enabled=C12_ENABLED),
+                 "max_len": 80}]
+    return account_check("C12", tier, replay, inst, rule, ACCOUNT_ASSUME)
